@@ -1,0 +1,66 @@
+//! Verification hooks. Compiled only with `--cfg rsdns_verif`; add-only thin wrappers that
+//! expose crate-private decoding/encoding entry points to an external test harness.
+#![allow(missing_docs)]
+
+use crate::{
+    bytes::{Cursor, Reader},
+    message::reader::{LabelRef, NameRef},
+    names::{InlineName, Name},
+    Result,
+};
+
+/// Reads a `Name` at `pos`; returns the name and the cursor position after it.
+pub fn read_name(msg: &[u8], pos: usize) -> Result<(Name, usize)> {
+    let mut c = Cursor::with_pos(msg, pos);
+    let n: Name = c.read()?;
+    Ok((n, c.pos()))
+}
+
+/// Reads an `InlineName` at `pos`; returns the name and the cursor position after it.
+pub fn read_inline_name(msg: &[u8], pos: usize) -> Result<(InlineName, usize)> {
+    let mut c = Cursor::with_pos(msg, pos);
+    let n: InlineName = c.read()?;
+    Ok((n, c.pos()))
+}
+
+/// Skips a domain name at `pos`; returns the cursor position after it.
+pub fn skip_name(msg: &[u8], pos: usize) -> Result<usize> {
+    let mut c = Cursor::with_pos(msg, pos);
+    c.skip_domain_name()?;
+    Ok(c.pos())
+}
+
+/// A `NameRef` pointing at `pos`.
+pub fn name_ref(msg: &[u8], pos: usize) -> NameRef<'_> {
+    NameRef::new(Cursor::with_pos(msg, pos))
+}
+
+/// Offset of a label returned by the `Labels` iterator.
+pub fn label_pos(l: &LabelRef<'_>) -> usize {
+    l.pos
+}
+
+cfg_any_client! {
+    use crate::{bytes::WCursor, message::QueryWriter, records::{Class, Opt, Type}};
+
+    /// Encodes `name` into `buf` with the crate's name encoder; returns the encoded length.
+    pub fn write_domain_name(buf: &mut [u8], name: &[u8]) -> Result<usize> {
+        WCursor::new(buf).write_domain_name_bytes(name)
+    }
+
+    /// Writes a query (2-byte length prefix included) into `buf`; returns (length, message id).
+    pub fn write_query(
+        buf: &mut [u8],
+        qname: &str,
+        qtype: u16,
+        qclass: u16,
+        recursion_desired: bool,
+        opt: Option<(u8, u16)>,
+    ) -> Result<(usize, u16)> {
+        let mut qw = QueryWriter::new(buf);
+        let id = qw.message_id();
+        let opt = opt.map(|(version, udp_payload_size)| Opt::new(version, udp_payload_size));
+        let len = qw.write(qname, Type::from(qtype), Class::from(qclass), recursion_desired, opt)?;
+        Ok((len, id))
+    }
+}
